@@ -3,6 +3,7 @@
 PROPERTIES = {
     "C17": dict(
         modules=["visibility"],
+        borrow=dict(modules=["requirements"], match=["VisibilityRequirement"]),
         level="proof",
         claim=(
             "point/vector branch of visibility.canSee: with nothing occluding, visible <=> inside the view volume (distance, azimuth and altitude "
@@ -20,7 +21,7 @@ PROPERTIES = {
         ],
         not_reached=[
             "visibility.canSee object branch (ray casting with numpy/trimesh): 'an object is seen whenever a substantial part of it is in view' is not proved",
-            "Object.visibleRegion / ViewRegion geometry (C16/C04)",
+            "mesh geometry of ViewRegion / ViewSectionRegion / CylinderSectionRegion (only the parameters and the case split are under contract; C16/C04)",
             "VisibilityRequirement occluder sets (C02, F21)",
         ],
     )
